@@ -254,6 +254,97 @@ impl Alphabet for Alpha {
     }
 }
 
+// ----- E2: every building operation x every way the operand can be reached -----
+
+const BUILD_SETUP: &str = "fn id(p) {\nreturn p\n}\nfn rest(..r) {\nreturn r\n}\nfn mk() {\nreturn keep\n}\nkeep := [[1], [2]]\nholder := {\"k\": keep, \"get\": fn () {\nreturn this.k\n}}\nwrap := [keep]\nok := {\"p\": [1], \"q\": [2]}\nhold2 := {\"o\": ok}\nfn mko() {\nreturn ok\n}\n";
+/// list-valued sources that all denote the list `keep`
+const LIST_SOURCES: [&str; 7] = ["keep", "id(keep)", "mk()", "holder.k", "holder.get()", "wrap[0]", "id(wrap)[0]"];
+/// object-valued sources that all denote the object `ok`
+const OBJ_SOURCES: [&str; 4] = ["ok", "id(ok)", "mko()", "hold2.o"];
+/// building operations on a list `@` (statements that leave the result in `r`)
+const LIST_BUILDS: [&str; 20] = [
+    "r := @ + []",
+    "r := [] + @",
+    "r := @ + @",
+    "r := [@..]",
+    "r := [@.., 9]",
+    "r := [9, @..]",
+    "r := [@.., @..]",
+    "r := @[:]",
+    "r := @[0:0]",
+    "r := @[1:1]",
+    "r := @[2:2]",
+    "r := @[0:1]",
+    "r := @[1:]",
+    "r := rest(@..)",
+    "r := rest(9, @..)",
+    "[..r] := @",
+    "[_, ..r] := @",
+    "[_, _, ..r] := @",
+    "r := @\nr += []",
+    "r := @\nr += [9]",
+];
+const OBJ_BUILDS: [&str; 7] = [
+    "r := {@..}",
+    "r := {@.., \"z\": 9}",
+    "r := {\"z\": 9, @..}",
+    "{..r} := @",
+    "{p, ..r} := @",
+    "{p, q, ..r} := @",
+    "r := {@.., @..}",
+];
+
+fn build_cases() -> Vec<Case> {
+    let mut v = vec![];
+    for (srcs, builds, name) in [(&LIST_SOURCES[..], &LIST_BUILDS[..], "keep"), (&OBJ_SOURCES[..], &OBJ_BUILDS[..], "ok")] {
+        for b in builds {
+            for s1 in srcs {
+                for s2 in srcs {
+                    // the same operation twice (operand reached in two ways): both results are new,
+                    // distinct from each other and from the operand, which is unchanged; elements are shared
+                    let first = b.replace('@', s1);
+                    let second = b.replace('@', s2).replace("r :=", "r2 :=").replace("..r]", "..r2]").replace("..r}", "..r2}").replace("r +=", "r2 +=");
+                    let probe = if name == "keep" {
+                        "print(r === keep)\nprint(r2 === keep)\nprint(r === r2)\nprint(keep)\nprint(r)\nprint(r2)\nfor [i, e] in r {\nif e->type() == \"list\" {\ne[0] = 7\n}\n}\nprint(keep)\nprint(r2)\nr2 += [5]\nprint(r)\nprint(keep)\n"
+                    } else {
+                        "print(r === ok)\nprint(r2 === ok)\nprint(r === r2)\nprint(ok)\nprint(r)\nprint(r2)\nfor [k, e] in r {\nif e->type() == \"list\" {\ne[0] = 7\n}\n}\nprint(ok)\nprint(r2)\nr2.n = 5\nprint(r)\nprint(ok)\n"
+                    };
+                    v.push(Case::new(format!("{}{}\n{}\n{}", BUILD_SETUP, first, second, probe), 7, format!("build {} / {}", first.replace('\n', "; "), second.replace('\n', "; "))));
+                }
+            }
+        }
+    }
+    // assigning a container that is equal to, but distinct from, the one already there replaces it:
+    // every target form x list / object
+    for (old, new) in [("[0]", "[0]"), ("{\"k\": 0}", "{\"k\": 0}"), ("[[0]]", "[[0]]"), ("[]", "[]"), ("{}", "{}")] {
+        for (tname, setup, assign, read) in [
+            ("variable", "t := OLD", "t = z", "t"),
+            ("element", "t := [OLD, 1]", "t[0] = z", "t[0]"),
+            ("property", "t := {\"p\": OLD}", "t.p = z", "t.p"),
+            ("key", "t := {\"p\": OLD}", "t[\"p\"] = z", "t.p"),
+            ("range of one", "t := [OLD, 1]", "t[0:1] = [z]", "t[0]"),
+            ("whole range", "t := [OLD, OLD]", "t[:] = [z, z]", "t[1]"),
+            ("range of two", "t := [1, OLD, OLD]", "t[1:3] = [z, z]", "t[2]"),
+            ("list pattern", "t := [OLD, 1]", "[t[0]] = [z]", "t[0]"),
+            ("object pattern", "t := {\"p\": OLD}", "{\"k\": t.p} = {\"k\": z}", "t.p"),
+            ("for target", "t := [OLD, 1]", "for [_, t[0]] in [z] {\n}", "t[0]"),
+            ("nested element", "t := [[OLD]]", "t[0][0] = z", "t[0][0]"),
+        ] {
+            let src = format!(
+                "{}\nwas := {}\nz := {}\n{}\nprint({} === z)\nprint({} === was)\nprint(t)\n",
+                setup.replace("OLD", old),
+                read,
+                new,
+                assign,
+                read,
+                read
+            );
+            v.push(Case::new(src, 7, format!("assign an equal but distinct {} to a {}", new, tname)));
+        }
+    }
+    v
+}
+
 impl Check for C05 {
     fn id(&self) -> &'static str {
         "C05"
@@ -262,7 +353,7 @@ impl Check for C05 {
     fn run(&self, ctx: &mut Ctx) -> Result<(), MachineryError> {
         let depth = std::env::var("C05_DEPTH").ok().and_then(|s| s.parse().ok()).unwrap_or(ctx.tier.pick(4usize, 6usize));
         ctx.rule = format!(
-            "breadth-first over all histories of <= {} operations from {} alias / copy / mutate / value operations on a := [1, [2]], b, c, o := {{\"k\": 3}} (bind to another name, store in a list / object, pass to a mutating function, return through a function, mutate through a closure, a loop pair, an element, a property; build with +, spread, range read, `..`, collect, +=, rest parameter, object spread / collect); states are merged when the reference heaps reachable from the variables are isomorphic; after every history every variable is printed and `===` is evaluated between all pairs of container values reachable to depth 2; non-trivial = a mutation after an alias or copy",
+            "breadth-first over all histories of <= {} operations from {} alias / copy / mutate / value operations on a := [1, [2]], b, c, o := {{\"k\": 3}} (bind to another name, store in a list / object, pass to a mutating function, return through a function, mutate through a closure, a loop pair, an element, a property; build with +, spread, range read, `..`, collect, +=, rest parameter, object spread / collect); states are merged when the reference heaps reachable from the variables are isomorphic; after every history every variable is printed and `===` is evaluated between all pairs of container values reachable to depth 2; non-trivial = a mutation after an alias or copy; plus the product of 20 list-building and 7 object-building operations, each applied twice to an operand reached in 7 (4) ways (variable, calls returning it, property, method, element), with identity, sharing and operand-unchanged probes, and 11 assignment forms x 5 equal-but-distinct containers",
             depth,
             OPS.len()
         );
@@ -280,11 +371,14 @@ impl Check for C05 {
                 }
             },
         )?;
+        let bc = build_cases();
+        let n_build = bc.len();
+        ctx.judge(bc, |c, r, o| self.oracle(c, r, o))?;
         ctx.guard("a mutation after an alias was observed through two identical containers", g_alias_mut);
         ctx.extra.insert(
             "bounds".into(),
             json!({"max_operations": depth, "completed_depth": stats.completed_depth, "operations": OPS.len(),
-                   "levels(depth,generated,kept)": stats.levels, "dead_states": stats.dead, "merged_states": stats.merged}),
+                   "levels(depth,generated,kept)": stats.levels, "dead_states": stats.dead, "merged_states": stats.merged, "build_and_assign_cases": n_build}),
         );
         Ok(())
     }
